@@ -508,11 +508,14 @@ FLT_SHAPES = [[], [1], [2], [3], [5], [2, 2], [1, 3], [2, 1, 2]]
 def gen_leaf(rng, floats):
     kinds = ["d", "mb", "md", "box", "box"] + (["fbox", "fbox"] if floats else [])
     k = rng.choice(kinds)
+    big = rng.random() < 0.04          # what the small scopes never reach: wide and long leaves, values beyond 2^24
     if k == "d":
-        return ["d", rng.randint(1, 6), 0]
+        return ["d", rng.choice([300, 70000, 20000001]) if big else rng.randint(1, 6), 0]
     if k == "mb":
-        return ["mb", rng.randint(1, 4)]
+        return ["mb", rng.randint(33, 40) if big else rng.randint(1, 4)]
     if k == "md":
+        if big:
+            return ["md", [rng.randint(1, 3) for _ in range(rng.randint(11, 14))]]
         return ["md", [rng.randint(1, 5) for _ in range(rng.randint(1, 4))]]
     if k == "box":
         shape = rng.choice(INT_SHAPES)
@@ -531,6 +534,16 @@ def gen_space(rng, depth, floats, p_leaf=0.3):
     flat dimensions pairwise different whenever a few retries achieve it"""
     if depth == 0 or rng.random() < p_leaf:
         return gen_leaf(rng, floats)
+    if rng.random() < 0.04:
+        # eleven and more components: positional order and the lexicographic order of "0", "1", "10", "11", "2" differ
+        n = rng.randint(11, 13)
+        children = [rng.choice([["d", 2, 0], ["d", 3, 0], ["mb", 1], ["md", [2, 2]], ["box", [1], [0], [2], 1]])
+                    for _ in range(n)]
+        if rng.random() < 0.5:
+            return ["tup", children]
+        keys = ["k%d" % i for i in range(n)]
+        rng.shuffle(keys)
+        return ["dict", [[key, c] for key, c in zip(keys, children)]]
     n = rng.randint(1, 4)
     children, dims = [], set()
     for _ in range(n):
@@ -620,7 +633,36 @@ def sample_leaf(rng, sd, mode="rand"):
         return leaf_point(sd, [c[0] for c in cells])
     if mode == "hi":
         return leaf_point(sd, [c[-1] for c in cells])
-    return leaf_point(sd, [rng.randrange(c[0], c[-1] + 1) for c in cells])
+    def pick(c):
+        if c[-1] - c[0] > 2 ** 24 and rng.random() < 0.5:
+            return c[-1] - rng.randrange(0, 1000)        # near the top: beyond what a float32 holds exactly
+        return rng.randrange(c[0], c[-1] + 1)
+    return leaf_point(sd, [pick(c) for c in cells])
+
+
+def extreme_spaces(floats):
+    """what the small scopes never reach, as fixed spaces of the example stream: an integer leaf with values beyond
+    2^24 next to float32 Boxes; two Boxes of 32x32 cells with per-cell bounds that differ in ONE interior cell (their
+    printed forms are equal: numpy summarises arrays of more than 1000 elements); bounds that differ past the
+    eighth digit"""
+    out = []
+    if floats:
+        f32 = ["fbox", [2], [fwire(Fraction(-1)), fwire(Fraction(0))], [fwire(Fraction(1)), fwire(Fraction(3, 2))], 32]
+        out.append(["tup", [["d", 20000001, 0], f32]])
+        out.append(["dict", [["obs", f32], ["count", ["md", [20000001, 3]]]]])
+        out.append(["tup", [["box", [1], [16777000], [16778000], 1], f32, ["mb", 2]]])
+    lo = [0] * 1024
+    hi1 = [3 + (i % 2) for i in range(1024)]              # per-cell bounds (not uniform: printed as arrays)
+    hi2 = list(hi1)
+    hi2[500] = 9
+    out.append(["box", [32, 32], lo, hi1, 1])
+    out.append(["box", [32, 32], lo, hi2, 1])
+    if floats:
+        a = Fraction(2)
+        b = Fraction(2) + Fraction(1, 2 ** 30)
+        out.append(["fbox", [1], [fwire(Fraction(0))], [fwire(a)], 64])
+        out.append(["fbox", [1], [fwire(Fraction(0))], [fwire(b)], 64])
+    return out
 
 
 def int_point_for_fbox(sd):
